@@ -4,7 +4,7 @@
    the check feeds the printed texts to the implementation (harness/props/c01.py: theorem_domain). *)
 From Coq Require Import String Ascii List Bool Arith Lia.
 From Wrap Require Import Base.Str Base.ListX Syntax.Ast Syntax.Print Inst.Model Parse.Peg Parse.PegProofs Parse.Build Parse.Spec
-     Parse.Layout Parse.RoundTrip Parse.RoundTripModule.
+     Parse.Layout Parse.RoundTrip Parse.RoundTripPair Parse.RoundTripModule.
 Import ListNotations.
 Open Scope list_scope.
 
@@ -106,6 +106,12 @@ Proof.
   cbn [a_default] in F1. destruct da; [discriminate|]. cbn [map]. rewrite (IH F2). reflexivity.
 Qed.
 
+Lemma args_back : forall a, forallb (fun x => noneb (a_default x)) a = true -> map mk_arg (map (fun x => (a_ty x, a_name x)) a) = a.
+Proof.
+  induction a as [|[ta na da] a IH]; intros F; [reflexivity|]. cbn [forallb] in F. apply andb_true_iff in F. destruct F as [F1 F2].
+  cbn [a_default] in F1. destruct da; [discriminate|]. cbn [map]. rewrite (IH F2). reflexivity.
+Qed.
+
 (* the type a Typename denotes when it is written as a type without qualifiers *)
 Definition basic_of (ns : list string) (nm : nm) : bool :=
   nilb ns && match nm with NStr n => mems n basics1 | _ => false end.
@@ -151,6 +157,8 @@ Fixpoint item_of_decl (d : decl) : option item :=
   | DInclude h => Some (IInc h)
   | DEnum {| e_name := n; e_items := l |} => Some (IEnum n l)
   | DTypedef tn n => Some (ITypedef (ty_of_tn tn) n)
+  | DFun {| f_tmpl := None; f_name := n; f_ret := RPair a b; f_args := l |} =>
+    if forallb (fun x => noneb (a_default x)) l then Some (IFnP a b n (map (fun x => (a_ty x, a_name x)) l)) else None
   | _ => match fn_of_decl d with Some x => Some (IFn x) | None => None end
   end.
 Fixpoint items_of_decls (l : list decl) : option (list item) :=
@@ -173,9 +181,13 @@ Proof. intros n ds. cbn [item_of_decl]. rewrite items_of_decls_go. reflexivity. 
 Lemma idecl_item : forall k i, idepth i < k -> forall d, item_of_decl d = Some i -> idecl i = d.
 Proof.
   induction k as [|k IH]; intros i Hd d H; [lia|].
-  destruct d as [c|f|tg nn|fw|inc|e|v|n ds];
-    try (cbn [item_of_decl] in H; match type of H with match ?o with _ => _ end = _ => destruct o as [x|] eqn:E end;
-         [inversion H; subst i; cbn [idecl]; apply decl_of_fn; exact E | discriminate]).
+  destruct d as [c|f|tg nn|fw|inc|e|v|n ds].
+  - cbn [item_of_decl fn_of_decl] in H. discriminate.
+  - destruct f as [tm fnm r a]. destruct tm as [tm|]; destruct r as [t|t1 t2]; cbn [item_of_decl fn_of_decl] in H; try discriminate.
+    + destruct (forallb (fun x => noneb (a_default x)) a) eqn:F; [|discriminate]. inversion H; subst i. cbn [idecl decl_of]. f_equal. f_equal.
+      apply args_back. exact F.
+    + destruct (forallb (fun x => noneb (a_default x)) a) eqn:F; [|discriminate]. inversion H; subst i. cbn [idecl]. unfold pfn_decl. f_equal. f_equal.
+      apply args_back. exact F.
   - cbn [item_of_decl] in H. inversion H; subst i. cbn [idecl]. rewrite (ty_of_tn_typename (S (tn_depth tg)) tg (Nat.lt_succ_diag_r _)). reflexivity.
   - destruct fw as [v [ns [n|o] insts] [pa|]]; cbn [item_of_decl fn_of_decl] in H; try discriminate;
       destruct ns; try discriminate; destruct insts; try discriminate. inversion H; subst i. reflexivity.
@@ -209,6 +221,9 @@ Proof.
   intros E. rewrite E in H3. discriminate.
 Qed.
 
+Definition plainb (t : ty) : bool := match t with TPlain _ _ _ _ => true | _ => false end.
+Lemma plainb_ok : forall t, plainb t = true -> plain t. Proof. intros [| ] H; [exact I | discriminate]. Qed.
+
 Fixpoint wf_itemb (i : item) : bool :=
   match i with
   | IFn x => wf_fnb x
@@ -216,13 +231,14 @@ Fixpoint wf_itemb (i : item) : bool :=
   | IFwd _ n => is_ident (chars_of n)
   | IInc h => path_okb_c (chars_of h)
   | ITypedef t n => wf_tyb t && Nat.ltb (depth t) depth_fuel && templ_topb t && is_ident (chars_of n)
+  | IFnP a b n l => wf_tyb a && wf_tyb b && plainb a && plainb b && is_ident (chars_of n) && forallb wf_argb l
   | IEnum n l => is_ident (chars_of n) && negb (memc (chars_of n) [chars_of "class"; chars_of "struct"]) && negb (nilb l)
                  && forallb (fun y => is_ident (chars_of y)) l
   | INs n b => is_ident (chars_of n) && forallb wf_itemb b
   end.
 Lemma wf_itemb_ok : forall k i, idepth i < k -> wf_itemb i = true -> wf_item i.
 Proof.
-  induction k as [|k IH]; intros i Hd H; [lia|]. destruct i as [x|t n|vt n|hd|en el|tt tnm|n b]; cbn [wf_itemb wf_item] in *.
+  induction k as [|k IH]; intros i Hd H; [lia|]. destruct i as [x|t n|vt n|hd|en el|tt tnm|pa pb pn pl|n b]; cbn [wf_itemb wf_item] in *.
   - apply wf_fnb_ok. exact H.
   - apply andb_true_iff in H. destruct H as [H H4]. apply andb_true_iff in H. destruct H as [H H3].
     apply andb_true_iff in H. destruct H as [H1 H2]. apply Nat.ltb_lt in H2.
@@ -237,6 +253,14 @@ Proof.
   - apply andb_true_iff in H. destruct H as [H H4]. apply andb_true_iff in H. destruct H as [H H3].
     apply andb_true_iff in H. destruct H as [H1 H2]. apply Nat.ltb_lt in H2.
     split; [apply (wf_tyb_ok _ _ H2 H1)|]. split; [exact H2|]. split; [apply templ_topb_ok; exact H3 | exact H4].
+  - apply andb_true_iff in H. destruct H as [H H6]. apply andb_true_iff in H. destruct H as [H H5].
+    apply andb_true_iff in H. destruct H as [H H4]. apply andb_true_iff in H. destruct H as [H H3].
+    apply andb_true_iff in H. destruct H as [H1 H2].
+    pose proof (plainb_ok pa H3) as P1. pose proof (plainb_ok pb H4) as P2.
+    split; [apply (wf_tyb_ok 1 pa); [rewrite (plain_depth pa P1); lia | exact H1]|].
+    split; [apply (wf_tyb_ok 1 pb); [rewrite (plain_depth pb P2); lia | exact H2]|].
+    split; [exact P1|]. split; [exact P2|]. split; [exact H5|].
+    apply Forall_forall. intros a Ha. apply wf_argb_ok. rewrite forallb_forall in H6. apply H6. exact Ha.
   - apply andb_true_iff in H. destruct H as [H1 H2]. split; [exact H1|]. cbn [idepth] in Hd.
     assert (Hb : forall j, In j b -> wf_item j).
     { intros j Hj. apply IH; [pose proof (idepth_ge b j Hj); lia | rewrite forallb_forall in H2; apply H2; exact Hj]. }
